@@ -93,7 +93,11 @@ def gen_site(rng: random.Random, scratch: str, name_classes=("plain", "spaces", 
     m.add(b"/umn/two.txt", "doc", b"two\n", mime="text/plain", tags=["file"])
     t.file("umn/.names", "Path=./one.txt\nName=The First\nNumb=2\n\nPath=./two.txt\nName=The Second\nNumb=1\n")
     t.file("umn/.Links", "Name=Remote Site\nType=1\nPath=/remote/path\nHost=gopher.example.org\nPort=7070\n\n"
-                         "Name=Local Again\nType=0\nPath=/umn/one.txt\nHost=+\nPort=+\n")
+                         "Name=Local Again\nType=0\nPath=/umn/one.txt\nHost=+\nPort=+\n\n"
+                         "Name=Other port here\nType=1\nPath=/otherport\nHost=+\nPort=7070\n\n"
+                         "Name=Relative with plus\nType=0\nPath=one.txt\nHost=+\nPort=+\n\n"
+                         "Name=Relative bare\nType=0\nPath=two.txt\n\n"
+                         "Name=Other host std port\nType=1\nPath=/otherhost\nHost=gopher2.example.org\nPort=+\n")
     t.file("umn/.abstract", "Directory about UMN things")
     # gophermap directory
     t.dir("gm")
